@@ -268,6 +268,11 @@ impl Segments {
         }
     }
 
+    // SND.UNA: the first sequence number that was not acknowledged yet.
+    pub fn snd_una(&self) -> SeqNr {
+        self.snd_una
+    }
+
     // The sequence number following the last queued (sent or not yet sent) segment.
     pub fn next_seq_nr(&self) -> SeqNr {
         self.snd_una + self.segments.len() as u16
